@@ -17,20 +17,21 @@ STRS = ['a', 'b', 'c', 'ab']
 
 
 @st.composite
-def specs(draw, max_entities=3, allow_comp_pk=True, allow_inheritance=False, rel_kinds=None, min_rels=1, max_rels=4):
+def specs(draw, max_entities=3, allow_comp_pk=True, allow_inheritance=False, rel_kinds=None, min_rels=1, max_rels=4,
+          keys=True):
     n = draw(st.integers(1, max_entities))
     entities = []
     for i in range(n):
-        pk = draw(st.sampled_from(['auto', 'auto', 'int', 'str'] + (['comp'] if allow_comp_pk else [])))
+        pk = draw(st.sampled_from(['auto', 'auto', 'int', 'str'] + (['comp'] if allow_comp_pk else []))) if keys else 'auto'
         nsc = draw(st.integers(0, 3))
         scalars = []
         for j in range(nsc):
             typ = draw(st.sampled_from(['int', 'str']))
             req = draw(st.booleans())
-            unique = draw(st.sampled_from([False, False, True]))
+            unique = draw(st.sampled_from([False, False, True])) if keys else False
             scalars.append({'name': 'a%d' % j, 'type': typ, 'req': req, 'unique': unique})
         ckeys = []
-        if len(scalars) >= 2 and draw(st.integers(0, 3)) == 0:
+        if keys and len(scalars) >= 2 and draw(st.integers(0, 3)) == 0:
             ckeys.append([scalars[0]['name'], scalars[1]['name']])
         entities.append({'name': 'E%d' % i, 'pk': pk, 'scalars': scalars, 'ckeys': ckeys})
     kinds = rel_kinds or ['o2m', 'o2m', 'o2o', 'm2m', 'sym_m2m', 'sym_o2o']
